@@ -51,6 +51,22 @@ Adopt ==
     /\ cfg' = r.cfg
     /\ ev' = [op |-> "Adopt", out |-> Outcome(r)]
 
+\* Config(schema, key_filename = ..., sub = <stored tree of sub>, ...): a fresh configuration built by
+\* the constructor from the stored trees of its sub-configurations (everything else at its
+\* default).  The maps are loaded - and their secrets decrypted - under the key files that apply
+\* to the new configuration.
+SubKw(tree) ==
+    LET idx == {i \in DOMAIN S.fields : IsSchema(S.fields[i][2]) /\ DictHas(tree.kv, StrV(KeyChars[S.fields[i][1]]))}
+        RECURSIVE W(_)
+        W(i) == IF i > Len(S.fields) THEN <<>>
+                ELSE (IF i \in idx THEN << <<S.fields[i][1], DictGet(tree.kv, StrV(KeyChars[S.fields[i][1]]))>> >> ELSE <<>>) \o W(i + 1)
+    IN W(1)
+Rebuild ==
+    LET tree == ToTree(S, cfg, FALSE, NoMask)
+        r == Construct(S, SubKw(tree)) IN
+    /\ cfg' = IF r.ok THEN r.cfg ELSE cfg
+    /\ ev' = [op |-> "Rebuild", out |-> Outcome(r)]
+
 \* key files a save or load opens: those of configurations that hold a non-empty secret
 RECURSIVE KeysUsed(_, _)
 KeysUsed(Sx, c) ==
@@ -97,6 +113,7 @@ Next ==
     \/ \E pk \in DOMAIN SetCands : \E v \in SetCands[pk] : Tick /\ Set(pk, v)
     \/ \E f \in Formats : Tick /\ RoundTrip(f)
     \/ Tick /\ Adopt
+    \/ Tick /\ Rebuild
     \/ \E vi \in BOOLEAN, m \in Masks, via \in Vias : Tick /\ Render(vi, m, via)
 
 ---------------------------------------------------------------------------
